@@ -239,6 +239,32 @@ func (m *mctx) mutants(pairs int) []mutant {
 		}
 		add("remine:"+name, res.Block)
 	}
+	// the base block's transactions mined again in later slots, by whichever deputy the repository's schedule puts in
+	// turn there (up to two rounds behind the parent): the predicate judges the signer with its own slot rule
+	{
+		slot := uint32(m.cl.W.SlotMs / 1000)
+		nd := len(m.cl.Nodes[0].DM.GetDeputiesByHeight(m.base.Height(), true))
+		for k := 1; k <= 2*nd+1; k++ {
+			if k > 3 && !m.r.Chance(1, 2) {
+				continue
+			}
+			lt := m.parent.Time() + uint32(k)*slot + uint32(m.r.Intn(int(slot)))
+			if int64(lt) > time.Now().Unix() {
+				continue
+			}
+			var keep types.Transactions
+			for _, tx := range m.base.Txs {
+				if tx.Expiration() >= uint64(lt) {
+					keep = append(keep, tx)
+				}
+			}
+			res, err := m.cl.Nodes[1].Mine(m.parent, lt, fx.CloneTxs(keep), "late")
+			if err != nil {
+				continue
+			}
+			add(fmt.Sprintf("remine:slot-%d-of-%d", k, nd), res.Block)
+		}
+	}
 	u1, u2 := m.cl.W.Users[1], m.cl.W.Users[2]
 	B := m.cl.G.B
 	bt := uint64(m.base.Time())
@@ -301,9 +327,45 @@ func digest(n *fx.Node, u *fx.Universe, offered []common.Hash, sample types.Tran
 	return hex.EncodeToString(h.Sum(nil))
 }
 
+// specInTurn is the slot rule written from the statement, from the term's deputy list alone (not the repository's
+// schedule code, which the harness miner uses to choose the signer): slots of one mine-timeout rotate through the
+// deputies of the block's term in rank order, starting behind the parent's miner - or at rank 0 for height 1 and for
+// the first block a new term signs.
+func (m *mctx) specInTurn(parent *types.Block, t uint32) (fx.Key, error) {
+	V := m.cl.Nodes[0]
+	h := parent.Height() + 1
+	deps := V.DM.GetDeputiesByHeight(h, true)
+	n := int64(len(deps))
+	if n == 0 {
+		return fx.Key{}, fmt.Errorf("no deputies for height %d", h)
+	}
+	pass := (int64(t) - int64(parent.Time())) * 1000
+	if pass < 0 {
+		return fx.Key{}, fmt.Errorf("before the parent")
+	}
+	s := (pass / int64(m.cl.W.SlotMs)) % n
+	rank := int64(-1)
+	firstOfTerm := h >= params.TermDuration+params.InterimDuration+1 && h%params.TermDuration == params.InterimDuration+1
+	if h != 1 && !firstOfTerm {
+		for i, d := range deps {
+			if d.MinerAddress == parent.MinerAddress() {
+				rank = int64(i)
+			}
+		}
+		if rank < 0 {
+			return fx.Key{}, fmt.Errorf("the parent's miner is no deputy of the term")
+		}
+	}
+	a := deps[(rank+1+s)%n].MinerAddress
+	k, ok := m.cl.W.DeputyByAddr(a)
+	if !ok {
+		return fx.Key{}, fmt.Errorf("in-turn miner %s is not a world deputy", a.String())
+	}
+	return k, nil
+}
+
 // valid is the validity predicate written from the statement; it returns "" or the clause that fails.
 func (m *mctx) valid(b *types.Block, known func(common.Hash) *types.Block) string {
-	V := m.cl.Nodes[0]
 	parent := known(b.ParentHash())
 	if parent == nil {
 		return "parent-unknown"
@@ -324,7 +386,7 @@ func (m *mctx) valid(b *types.Block, known func(common.Hash) *types.Block) strin
 	if err != nil {
 		return "signature-unrecoverable"
 	}
-	inTurn, err := V.InTurn(parent.Header, b.Time())
+	inTurn, err := m.specInTurn(parent, b.Time())
 	if err != nil {
 		return "no-in-turn-deputy"
 	}
@@ -450,7 +512,14 @@ type witness struct {
 func scenario(c *run.Ctx, idx int) {
 	r := run.NewRng(c.Seed, 2, uint64(idx))
 	nDep := 2 + idx%3
-	cl := scn.NewCluster(r, fx.WorldCfg{Deputies: nDep, Users: 8, SlotMs: uint64(1000 * r.Range(3, 8))}, 2, scn.Cfg{Users: 8, RandomCode: false, Votes: true, Assets: false, Boxes: true, Multisig: false, Discards: false})
+	wcfg := fx.WorldCfg{Deputies: nDep, Users: 8, SlotMs: uint64(1000 * r.Range(3, 8))}
+	// every eighth scenario crosses a term change at which the deputy set grows (the nodes are configured for more
+	// deputies than genesis has, users register as candidates) and mutates the first blocks the new term signs
+	growth := idx%8 == 4
+	if growth {
+		wcfg.DeputyCap = nDep + 2
+	}
+	cl := scn.NewCluster(r, wcfg, 2, scn.Cfg{Users: 8, RandomCode: false, Votes: true, Assets: false, Boxes: true, Multisig: false, Discards: false})
 	defer cl.Close()
 	V := cl.Nodes[0]
 	everything := map[common.Hash]*types.Block{}
@@ -468,6 +537,9 @@ func scenario(c *run.Ctx, idx int) {
 	if idx%4 == 0 {
 		nBlocks = scn.Term + 2
 	}
+	if growth {
+		nBlocks = scn.Term + scn.Interim + 3
+	}
 	for bi := 0; bi < nBlocks; bi++ {
 		t := cl.NextTime()
 		var cands []scn.Cand
@@ -480,6 +552,22 @@ func scenario(c *run.Ctx, idx int) {
 			cands = nil
 		default:
 			cands = cl.G.Next(t, cl.Head.Height()+1, r.Range(2, 6))
+		}
+		if growth && bi == 2 {
+			for u := 0; u < 2; u++ {
+				k := cl.W.Users[u]
+				if !cl.G.Cands[u] {
+					cl.G.Cands[u] = true
+					cands = append(cands, cl.G.C(cl.G.B.Register(k, fx.Profile(k, k.Addr, true, "growth"), params.MinCandidateDeposit, uint64(t)+800+uint64(u)), "register", "ok"))
+				}
+			}
+		}
+		if growth && cl.Head.Height() == params.TermDuration+params.InterimDuration {
+			if got := V.DM.GetDeputiesCount(cl.Head.Height() + 1); got > nDep {
+				c.Stat("scenarios_with_more_deputies_in_the_new_term", 1)
+			} else {
+				c.Stat("growth_not_effective", 1)
+			}
 		}
 		parent := cl.Head
 		res, err := cl.Nodes[1].Mine(parent, t, scn.Txs(cands), "")
@@ -506,7 +594,11 @@ func scenario(c *run.Ctx, idx int) {
 		if len(base.Txs) > 0 && len(sample) < 6 {
 			sample = append(sample, base.Txs[0])
 		}
-		if bi < 2 || (!c.Thorough() && bi%2 == 1) {
+		firstOfNewTerm := growth && base.Height() == params.TermDuration+params.InterimDuration+1
+		if firstOfNewTerm {
+			c.Stat("first_blocks_of_a_larger_term_mutated", 1)
+		}
+		if bi < 2 || (!c.Thorough() && bi%2 == 1 && !firstOfNewTerm) {
 			// quick tier: every second base block is mutated
 			if cl.MustStabiliseSoon() {
 				if !cl.StabiliseAll() {
